@@ -48,7 +48,7 @@ checks["C15"]=dict(level="model_checking",engine="gosim",design="4/C15",techniqu
   text="Each context-taking blocking operation (transport Send/Receive, in-process Accept, the four channel sends, ProcessCommand, client FinishSession, client and server EstablishSession at every stage including a stalled TLS upgrade) is run in isolation on the in-process and TCP transports against a silent / non-consuming peer, with its context ended by deadline or by cancellation from another goroutine; on the virtual clock (which only advances when everything is blocked) the call must return an error at the deadline, or within the 5s poll interval after a cancellation (0 in-process).")
 checks["C06"]=dict(level="model_checking",engine="gosim",design="4/C06",technique=SCHED_TECH,
   text="Send direction: a real client/server pair runs handshake, establishment and one of three teardowns while one send call per role (each of the five send operations), released at a stage chosen as data, is placed at every position within the deviation bound; wire taps show what was really written: nothing before the established envelope, nothing after the terminating call returned, success only if written. Receive direction: every data envelope kind injected at every handshake position against the real Server and the real client channel never reaches handlers or streams and aborts the handshake.")
-CODEC_NOTE="Trusted base: encoding/json, net/url and the Go compiler; the real codec, the real tcpTransport receive path and (C01, C02) the real websocketTransport over a real gorilla connection run unmodified over a passive in-memory connection. Values outside the stated grammar/depth and mutation sets are not covered; WebSocket messages are single unfragmented text frames."
+CODEC_NOTE="Trusted base: encoding/json, net/url and the Go compiler; the real codec, the real tcpTransport receive path and the real websocketTransport over a real gorilla connection run unmodified over a passive in-memory connection. Values outside the stated grammar/depth and mutation sets are not covered; WebSocket messages are single unfragmented text frames."
 checks["C01"]=dict(level="exploration",engine="seqx",design="4/C01",note=CODEC_NOTE,
   technique="bounded-exhaustive enumeration of a value grammar (every term up to a depth, simplest first) through the real encoders/decoders and the real transport receive path; canonical-equality oracle",
   text="Every envelope of the grammar (5 kinds x optional-field combinations x document kinds nested to depth 2 quick / 3 thorough x escapes/unicode strings x all enum members x every authentication scheme) is marshalled, decoded by the typed decoder and by the real TCP transport receive path, sent through the real WebSocket transport and received back through it (both the frame it wrote and the plain encoding), and compared field by field; every Node/Identity/MediaType/URI text form over a small alphabet up to the length bound must parse back.")
@@ -57,7 +57,7 @@ checks["C02"]=dict(level="exploration",engine="seqx",design="4/C02",note=CODEC_N
   text="About 500 seed encodings are mutated at every JSON node (delete, null, every wrong JSON type, alien key, swapped sub-tree, duplicate key), truncated at every byte and concatenated; each byte string goes to the five typed decoders, the real TCP transport receive path (as a stream) and the real WebSocket transport (as one text message) under recover: no panic, and whatever is accepted re-encodes to something that decodes to an equal envelope of the same kind.")
 checks["C11"]=dict(level="exploration",engine="seqx",design="4/C11",note=CODEC_NOTE,
   technique="bounded-exhaustive enumeration of source envelopes x builder functions x arguments, each built reply checked field by field and through a wire round trip; plus one real ping round trip per direction",
-  text="Every request command / message of the base grammar (from/pp/to present or absent in all combinations, all methods, resources of every document kind) is passed to every reply builder (SuccessResponse, SuccessResponseWithResource, FailureResponse, Notification x events, FailedNotification, Sender); id, method, addressing, status, reason, resource and resource type are checked on the built value and after encoding + decoding through the typed decoder and the transport path; the ping auto-reply is exercised through real endpoints in both directions.")
+  text="Every request command / message of the base grammar (from/pp/to present or absent in all combinations, all methods, resources of every document kind) is passed to every reply builder (SuccessResponse, SuccessResponseWithResource, FailureResponse, Notification x events, FailedNotification, Sender); id, method, addressing, status, reason, resource and resource type are checked on the built value and after encoding + decoding through the typed decoder, the TCP transport receive path and the WebSocket transport receive path; the ping auto-reply is exercised through real endpoints in both directions.")
 na_reason={}
 m={"version":1,
  "setup_cmd":"./setup.sh",
